@@ -83,7 +83,7 @@ def classify_number_to_text(crate, arm_body, var, ctx_emit, key, loc_fn):
             return
         if k in ("Call", "MethodCall") and k == "Call":
             d = n.get("def") or ""
-            if any(H.path_local(a) == var for a in n["args"]) and d.startswith("blots_core::") and "format" in H.last(d):
+            if any(H.path_local(a) == var for a in n["args"]) and d.startswith("blots_core::") and d in crate.hir and "alloc::string::String" in (crate.hir[d].get("output") or ""):
                 n_sites += 1
                 # follow the number into the helper: every way the helper turns it into text must be exact as well
                 hf_ = crate.hir.get(d)
